@@ -68,7 +68,42 @@ def render(G, broken, rng=None):
     return {"main": url("m1"), "files": files, "real_compile": True}
 
 
+CURRENT_NAMES = {}      # per-case URL -> abstract name (the colliding rendering places a missing target under an existing module's file name)
+
+
+def render_colliding(G, broken):
+    """a rendering in which every missing import of a module other than the main one is spelled exactly like an import of an
+    existing module written elsewhere: the importing module sits in lib/, the existing module t at the top, the missing file is
+    lib/t.oal and both are spelled "t.oal".  None when the graph has no such import."""
+    movers = [m for m in G if m != "m1" and any(t not in G for t in G[m])]
+    if not movers:
+        return None, None
+    layout = {m: ("lib/" if m in movers else "") for m in G}
+    tops = [m for m in G if m not in movers and m != "m1"] or ["m1"]
+    names, files = {}, {}
+    for m, imps in G.items():
+        lines = []
+        for t in imps:
+            if t not in G and m in movers:
+                twin = tops[(len(t) + len(m) + int(t[-1:] if t[-1:].isdigit() else 0)) % len(tops)]
+                names[BASE + "lib/" + twin + ".oal"] = t
+                lines.append('use "%s.oal";' % twin)
+            elif t in G and layout[t] == layout[m]:
+                lines.append('use "%s.oal";' % t)
+            elif t in G and layout[m] == "lib/":
+                lines.append('use "../%s.oal";' % t)
+            elif t in G:
+                lines.append('use "lib/%s.oal";' % t)
+            else:
+                lines.append('use "%s.oal";' % t)
+        lines.append("let = ;" if m in broken else "let d_%s = num;" % m)
+        files[url(m, layout)] = "\n".join(lines) + "\n"
+    return {"main": url("m1"), "files": files, "real_compile": True}, names
+
+
 def name(u):
+    if u in CURRENT_NAMES:
+        return CURRENT_NAMES[u]
     # module names are unique whatever the directory
     return u[len(BASE):-4].rsplit("/", 1)[-1] if u.startswith(BASE) and u.endswith(".oal") else u
 
@@ -256,11 +291,21 @@ def run(tier):
         meta.append((g, "canonical"))
         cases.append(render(g["G"], g["broken"], rng))
         meta.append((g, "aliased"))
+        cc, names = render_colliding(g["G"], g["broken"])
+        if cc is not None:
+            cases.append(cc)
+            meta.append((g, ("colliding", names)))
     obs = run_oalv_parallel("load", cases, jobs=12)
     nontrivial = 0
     traces = []
     obs_recs = []
+    ncoll = 0
     for (g, label), o in zip(meta, obs):
+        CURRENT_NAMES.clear()
+        if isinstance(label, tuple):
+            CURRENT_NAMES.update(label[1])
+            label = label[0]
+            ncoll += 1
         compare(chk, g["G"], g["broken"], g["allowed"], g["spec"], o, label)
         if label == "canonical":
             if sum(len(v) for v in g["G"].values()) >= 2:
@@ -269,6 +314,10 @@ def run(tier):
                 traces.append(events_of(g["G"], g["broken"], o))
         if o.get("outcome") == "ok":
             obs_recs.append(obs_record(g["G"], g["broken"], o))
+    CURRENT_NAMES.clear()
+    chk.notes["colliding_renderings"] = ncoll
+    if ncoll == 0:
+        raise common.ToolError("no colliding rendering (a missing import spelled like an existing module's import) was produced")
     chk.cov["evaluations"] = len(cases)
     chk.cov["distinct_nontrivial"] = nontrivial
     chk.cov["traces_validated_against_impl"] += len(cases)
